@@ -54,7 +54,7 @@ func vNewConn(name string) *vConn {
 	return &vConn{name: name, in: make(chan []byte), closeCh: make(chan struct{}), wrote: make(chan struct{}, 64)}
 }
 
-func (c *vConn) Read(p []byte) (int, error)  { return 0, io.EOF }
+func (c *vConn) Read(p []byte) (int, error) { return 0, io.EOF }
 func (c *vConn) Write(p []byte) (int, error) {
 	if c.closed {
 		return 0, errors.New("write on closed connection")
